@@ -358,7 +358,7 @@ def case(ctx, rng, idx, state):
 if __name__ == "__main__":
     harness.main(
         PROP, "exploration", case, setup_fn=setup,
-        tiers=dict(quick=dict(cases=800, shards=8, time=400), thorough=dict(cases=8000, shards=16, time=1100)),
+        tiers=dict(quick=dict(cases=800, shards=8, time=900), thorough=dict(cases=8000, shards=16, time=3000)),
         rule="random Hermitian models with generic SS (2-5 bands, or 1-3 bands doubled to exact two-fold degeneracy), 2D and 3D, "
              "grids up to 5^3 / 9^2 split at random into NKdiv x NKFFT, degen_thresh in {1e-4,1e-3,.03,.3,.8}, degen_Kramers, "
              "uniform Fermi grids (1-22 points, spacing 2e-3..1, covering the bands / inside them / single point); "
